@@ -335,4 +335,52 @@ theorem reordered_nested {ω} (w : LLWcs ω) (types : List String) (po1 wo1 po2 
     exact selectIdx_selectIdx wo2 wo1 (w.p2w p) (fun i hi => by rw [hwf]; exact hltw1 i hi)
   · rw [a2.2.1, a1.2.1]
 
+/-! ## bounds of the compound wrapper -/
+
+/-- **Members whose shared axes disagree in bounds are refused** — whichever end differs: if every
+member records bounds and two positions of the mapping name the same pixel input but carry
+different `(lower, upper)` pairs, constructing the compound WCS raises `ValueError`; and when it is
+accepted every input's bounds are those of the first member axis mapped to it. -/
+theorem compound_bounds_refused (bounds : List (Option (List (Rat × Rat)))) (mapping : List Nat)
+    (hall : bounds.all Option.isSome = true) (i j : Nat) (hi : i < mapping.length) (hj : j < mapping.length)
+    (hsame : mapping.getD i 0 = mapping.getD j 0)
+    (hdiff : (bounds.flatMap fun b => b.getD []).getD i (0, 0) ≠ (bounds.flatMap fun b => b.getD []).getD j (0, 0)) :
+    compoundBounds bounds mapping = .error .valueError := by
+  simp only [compoundBounds, hall, Bool.not_true, Bool.false_eq_true, if_false]
+  obtain ⟨pb, hpb⟩ : ∃ pb, pb = (bounds.flatMap fun b => b.getD []) := ⟨_, rfl⟩
+  rw [← hpb] at hdiff ⊢
+  have hany : ((List.range mapping.length).any fun k =>
+      pb.getD ((mappingInverse mapping (nInputsOf mapping)).getD (mapping.getD k 0) 0) (0, 0) ≠ pb.getD k (0, 0)) = true := by
+    rw [List.any_eq_true]
+    by_cases h1 : pb.getD ((mappingInverse mapping (nInputsOf mapping)).getD (mapping.getD i 0) 0) (0, 0) = pb.getD i (0, 0)
+    · refine ⟨j, List.mem_range.mpr hj, ?_⟩
+      rw [← hsame, h1]
+      simpa using hdiff
+    · exact ⟨i, List.mem_range.mpr hi, by simpa using h1⟩
+  rw [if_pos hany]
+
+theorem compound_bounds_accepted (bounds : List (Option (List (Rat × Rat)))) (mapping : List Nat) (r : Option (List (Rat × Rat)))
+    (h : compoundBounds bounds mapping = .ok r) :
+    (bounds.all Option.isSome = false → r = none) ∧
+    (bounds.all Option.isSome = true →
+      r = some (selectIdx (mappingInverse mapping (nInputsOf mapping)) (bounds.flatMap fun b => b.getD [])) ∧
+      ∀ k, k < mapping.length →
+        (bounds.flatMap fun b => b.getD []).getD ((mappingInverse mapping (nInputsOf mapping)).getD (mapping.getD k 0) 0) (0, 0)
+          = (bounds.flatMap fun b => b.getD []).getD k (0, 0)) := by
+  constructor
+  · intro hb
+    simp only [compoundBounds, hb, Bool.not_false, if_true] at h
+    cases h; rfl
+  · intro hb
+    simp only [compoundBounds, hb, Bool.not_true, Bool.false_eq_true, if_false] at h
+    split at h
+    · cases h
+    · rename_i hn
+      cases h
+      refine ⟨rfl, ?_⟩
+      intro k hk
+      simp only [List.any_eq_true, List.mem_range, not_exists, not_and, decide_eq_true_eq] at hn
+      have := hn k hk
+      simpa using this
+
 end Ndcube.C14
